@@ -471,6 +471,11 @@ func (s *reprovider) Reprovide(ctx context.Context) error {
 	if s.throughputCallback != nil && s.throughputMinimumProvides < batchSize {
 		batchSize = s.throughputMinimumProvides
 	}
+	if batchSize == 0 {
+		// A batch of zero keys never reads the key channel: the loop below
+		// would spin forever.
+		batchSize = 1
+	}
 
 	cids := make(map[cid.Cid]struct{}, min(batchSize, 1024))
 	allCidsProcessed := false
